@@ -55,6 +55,9 @@ var vttTagPool = []vttTag{
 	{name: "c", classes: []string{"yellow", "bg_blue"}}, {name: "lang", ann: "en"}, {name: "lang", ann: "fr-FR"}, {name: "ruby"}, {name: "rt"},
 	{name: "i", classes: []string{"loud"}}, {name: "b", classes: []string{"x", "y", "z"}}, {name: "customed_tag", classes: []string{"class1"}},
 	{name: "c", classes: []string{"red"}, ann: "note"},
+	// class lists that are prefixes of one another
+	{name: "c", classes: []string{"red", "big"}}, {name: "b", classes: []string{"x"}}, {name: "b", classes: []string{"x", "y"}},
+	{name: "i", classes: []string{"loud", "red"}},
 }
 
 var vttVoices = []string{"Bob", "Roger Bingham", "中文", "Mary-Ann", "Dr. Who"}
@@ -141,6 +144,9 @@ func genVTTDoc(r *rng, maxCues int, tricky bool) vttDoc {
 			var cm []string
 			for l := 1 + r.intn(2); l > 0; l-- {
 				cm = append(cm, vttWords[r.intn(len(vttWords))]+" "+vttWords[r.intn(len(vttWords))])
+			}
+			if r.chance(1, 4) { // a continuation line that looks like the opener of another block is comment text all the same
+				cm = append(cm, []string{"STYLE matters", "Region: north", "X-TIMESTAMP-MAP is a header", "STYLE", "Regional", "STYLE x { }"}[r.intn(6)])
 			}
 			c.comments = append(c.comments, cm)
 		}
@@ -566,6 +572,8 @@ var vttLineWitnesses = [][][]vttTag{
 	{{{name: "lang", ann: "en"}}, {{name: "lang", ann: "fr"}}},
 	{{{name: "b"}, {name: "i"}}, {{name: "b"}}, {{name: "b"}, {name: "i"}}},
 	{{{name: "i"}}, nil, {{name: "i"}}},
+	{{{name: "c", classes: []string{"loud", "red"}}}, {{name: "c", classes: []string{"loud"}}}},
+	{{{name: "c", classes: []string{"loud"}}}, {{name: "c", classes: []string{"loud", "red"}}}, {{name: "c"}}},
 }
 
 func vttWitnessSubs(w [][]vttTag, ts bool) *astisub.Subtitles {
